@@ -222,6 +222,8 @@ def brentsrootvec(f, bounds, tol=None, verbose=False, return_interval=False, acc
         tol = D.epsilon(lower_bound.dtype)
     tol = D.ar_numpy.asarray(tol, like=lower_bound)
     a, b = D.ar_numpy.asarray(lower_bound, like=tol), D.ar_numpy.asarray(upper_bound, like=tol)
+    # the bracket is narrowed in place below: work on copies so that the caller's arrays stay as given
+    a, b = D.ar_numpy.copy(a), D.ar_numpy.copy(b)
     
     if isinstance(f, list):
         def _f(x, mask=None):
